@@ -227,3 +227,185 @@ Proof.
     apply pto_bind_ret with (Q1 := fun _ => True); [|intros t _; exact Hh].
     apply pto_context, pto_cut_err, line_trailing_nl.
 Qed.
+
+(* ---- one line of `document`, and the state machine step it performs ------------------------------------------- *)
+Section Loop.
+  Variable ftext : fval -> bytes.
+
+  Definition absS (S : D.sstate value) : D.sstate aval := map_state abs_value S.
+
+  Lemma doc_line_dispatch st b tl p d :
+    doc_line st (mkIn (b :: tl) p d)
+    = bind (if byte_eqb b COMMENT_START_SYMBOL then cut_err (parse_comment st)
+            else if byte_eqb b STD_TABLE_OPEN then cut_err (table st)
+            else if byte_eqb b LF || byte_eqb b CR then parse_newline st
+            else cut_err (keyval st)) parse_ws (mkIn (b :: tl) p d).
+  Proof. reflexivity. Qed.
+
+  Lemma spec_fold_one {V} (S : D.sstate V) s Sa : D.spec_fold false S [s] = D.ROk Sa -> D.spec_step false S s = D.ROk Sa.
+  Proof. cbn [D.spec_fold]. destruct (D.spec_step false S s); cbn [D.rbind]; congruence. Qed.
+
+  (* a model statement whose erasure maps to the abstract statement s steps the state machine as the
+     abstract rules step the abstract tree *)
+  Lemma mstep_abs st S m Sa' :
+    DS.Inv st S -> D.spec_step false (absS S) (map_stmt abs_value (DB.erase m)) = D.ROk Sa' ->
+    exists st1 S1, DB.mstep st m = COk st1 /\ DS.Inv st1 S1 /\ absS S1 = Sa'.
+  Proof.
+    intros HI Hs. unfold absS in Hs. rewrite spec_step_map in Hs.
+    pose proof (DM.mstep_sim st S m HI) as Hsim.
+    destruct (D.spec_step false S (DB.erase m)) as [S1| |]; cbn [map_res] in Hs; try discriminate.
+    injection Hs as Hs. cbn [DM.simstep] in Hsim. destruct Hsim as (st1 & E & HI1).
+    exists st1, S1. auto.
+  Qed.
+
+  Lemma on_keyval_sp_nil st kk it st1 : on_keyval st [] kk it = COk st1 -> on_keyval_sp st [] kk it = COk st1.
+  Proof. intro H. unfold on_keyval_sp. rewrite H. cbn [set_dotted_spans]. destruct st1; reflexivity. Qed.
+
+  Lemma exists_last_key (h : list key) : h <> [] -> exists pre k, h = pre ++ [k].
+  Proof. intro H. destruct (exists_last H) as (pre & k & E). eauto. Qed.
+
+  Lemma doc_line_sim l R st S p :
+    line_ok ftext l -> lhead R -> DS.Inv st S ->
+    forall Sa', D.spec_fold false (absS S) (line_stmt l) = D.ROk Sa' ->
+    exists st' S' p', doc_line st (mkIn (line_txt ftext l ++ R) p 0) = Ok st' (mkIn R p' 0)
+                      /\ DS.Inv st' S' /\ absS S' = Sa'.
+  Proof.
+    intros Hok HR HI Sa' Hfold. destruct l as [k v| |arr path].
+    - (* key = value *)
+      destruct Hok as (Hk & Hb & Hd).
+      destruct (parse_keyval_pto ftext k v R Hk Hb Hd p) as (pr & p1 & Epk & kk & vv & -> & Hkk & Hvv).
+      apply spec_fold_one in Hfold. cbn [line_stmt] in Hfold.
+      assert (Em : map_stmt abs_value (DB.erase (DB.MKeyVal [] kk vv)) = D.SKeyVal [k] (abs_value v)).
+      { cbn [DB.erase DB.keys map app map_stmt]. rewrite Hkk, Hvv. reflexivity. }
+      rewrite <- Em in Hfold. destruct (mstep_abs st S _ Sa' HI Hfold) as (st1 & S1 & Est & HI1 & Ha).
+      cbn [DB.mstep] in Est.
+      exists (on_ws st1 (p1, p1)), S1, p1. split; [|split; [apply DM.Inv_on_ws, HI1|exact Ha]].
+      destruct (key_display_new k) as (tk & Hw & _).
+      destruct (key_token_head k tk Hw) as (b & tk' & Etk & Hb0).
+      destruct (key_head_facts b Hb0) as (_ & _ & H1 & H2 & H3 & H4).
+      assert (Eh : exists tl, line_txt ftext (LKeyVal k v) ++ R = b :: tl).
+      { cbn [line_txt]. rewrite (encode_key_path_one k tk _ Hw), Etk. cbn [fst DEFAULT_KEY_DECOR app]. eauto. }
+      destruct Eh as (tl & Eh). rewrite Eh, doc_line_dispatch, <- Eh. rewrite H1, H2, H3, H4. cbn [orb].
+      rewrite (bind_ok _ _ _ st1 (mkIn R p1 0)); [apply parse_ws_none, HR|].
+      apply cut_err_ok. unfold keyval, try_map. rewrite Epk. rewrite (on_keyval_sp_nil _ _ _ _ Est). reflexivity.
+    - (* blank line *)
+      cbn [line_stmt D.spec_fold] in Hfold. injection Hfold as <-.
+      exists (on_ws (on_ws st (p, (p + 1)%N)) ((p + 1)%N, (p + 1)%N)), S, (p + 1)%N.
+      split; [|split; [apply DM.Inv_on_ws, DM.Inv_on_ws, HI|reflexivity]].
+      cbn [line_txt app]. rewrite doc_line_dispatch.
+      change (byte_eqb x0a COMMENT_START_SYMBOL) with false. change (byte_eqb x0a STD_TABLE_OPEN) with false.
+      change (byte_eqb x0a LF || byte_eqb x0a CR) with true. cbv iota.
+      rewrite (bind_ok _ _ _ (on_ws st (p, (p + 1)%N)) (mkIn R (p + 1)%N 0)); [apply parse_ws_none, HR|reflexivity].
+    - (* headers *)
+      destruct Hok as (Hne & Hk & Hlen).
+      destruct (hdr_inner_pto ftext arr path R Hne Hk Hlen p) as ([[h sp0] tr] & p1 & Eh & Hh). cbn [fst] in Hh.
+      assert (Hhne : h <> []) by (intro E; subst h; destruct path; [contradiction|discriminate]).
+      destruct (exists_last_key h Hhne) as (pre & kl & ->).
+      assert (Hfold0 : D.spec_step false (absS S) (if arr then D.SArrHeader path else D.SHeader path) = D.ROk Sa')
+        by (destruct arr; apply spec_fold_one; exact Hfold).
+      assert (Em : map_stmt abs_value (DB.erase (DB.MHeader arr pre kl tr sp0))
+                   = if arr then D.SArrHeader path else D.SHeader path).
+      { destruct arr; cbn [DB.erase map_stmt]; unfold DB.keys; rewrite <- Hh, map_app; reflexivity. }
+      assert (Hfold' : D.spec_step false (absS S) (map_stmt abs_value (DB.erase (DB.MHeader arr pre kl tr sp0))) = D.ROk Sa').
+      { rewrite Em. exact Hfold0. }
+      destruct (mstep_abs st S _ Sa' HI Hfold') as (st1 & S1 & Est & HI1 & Ha).
+      cbn [DB.mstep] in Est.
+      exists (on_ws st1 (p1, p1)), S1, p1. split; [|split; [apply DM.Inv_on_ws, HI1|exact Ha]].
+      assert (Ehd : header arr st (mkIn (line_txt ftext (LHeader arr path) ++ R) p 0) = Ok st1 (mkIn R p1 0)).
+      { rewrite header_eq. unfold try_map. rewrite Eh, Est. reflexivity. }
+      assert (Etab : table st (mkIn (line_txt ftext (LHeader arr path) ++ R) p 0) = Ok st1 (mkIn R p1 0)).
+      { unfold table. apply context_ok. destruct arr.
+        - cbn [line_txt app] in *. rewrite (bind_ok _ _ _ [x5b; x5b] (mkIn (x5b :: x5b :: (path_txt path ++ [x5d; x5d] ++ [x0a]) ++ R) p 0)) by reflexivity.
+          exact Ehd.
+        - destruct path as [|k0 ks]; [contradiction|]. inversion Hk as [|? ? Hk0 _]; subst.
+          destruct (key_display_new k0) as (tk & Hw & Etk).
+          destruct (key_token_head k0 tk Hw) as (b & tk' & Eb & Hb0).
+          destruct (key_head_facts b Hb0) as (_ & _ & _ & H2 & _).
+          assert (Ept : exists tl, path_txt (k0 :: ks) = b :: tl).
+          { rewrite path_txt_segs. cbn [part_seg part_of seg_txt fst snd app]. unfold tok. rewrite Etk, Eb. cbn [app]. eauto. }
+          destruct Ept as (tl & Ept). cbn [line_txt app] in *. rewrite Ept in *. cbn [app] in *.
+          rewrite (bind_ok _ _ _ [x5b; b] (mkIn (x5b :: b :: (tl ++ [x5d] ++ [x0a]) ++ R) p 0)) by reflexivity.
+          cbn [bytes_eqb]. rewrite byte_eqb_sym in H2. rewrite byte_eqb_refl. cbn [andb].
+          unfold STD_TABLE_OPEN in H2. rewrite byte_eqb_sym, H2. cbn [andb]. exact Ehd. }
+      assert (Ehead : exists tl, line_txt ftext (LHeader arr path) ++ R = x5b :: tl) by (destruct arr; cbn [line_txt app]; eauto).
+      destruct Ehead as (tl & Ehead). rewrite Ehead, doc_line_dispatch, <- Ehead.
+      change (byte_eqb x5b COMMENT_START_SYMBOL) with false. change (byte_eqb x5b STD_TABLE_OPEN) with true. cbv iota.
+      rewrite (bind_ok _ _ _ st1 (mkIn R p1 0)); [apply parse_ws_none, HR|]. apply cut_err_ok, Etab.
+  Qed.
+End Loop.
+
+(* ---- the whole document -------------------------------------------------------------------------------------------- *)
+Section Document.
+  Variable ftext : fval -> bytes.
+
+  Definition lines_txt (ls : list dline) : bytes := concat (map (line_txt ftext) ls).
+  Definition lines_stmts (ls : list dline) : list (D.stmt aval) := flat_map line_stmt ls.
+
+  Lemma spec_fold_app {V} (a b : list (D.stmt V)) S :
+    D.spec_fold false S (a ++ b) = D.rbind (D.spec_fold false S a) (fun S1 => D.spec_fold false S1 b).
+  Proof.
+    revert S. induction a as [|s a IH]; intro S; [reflexivity|]. cbn [app D.spec_fold].
+    destruct (D.spec_step false S s); cbn [D.rbind]; [apply IH|reflexivity|reflexivity].
+  Qed.
+
+  Lemma lines_txt_head ls : Forall (line_ok ftext) ls -> lhead (lines_txt ls).
+  Proof.
+    intro H. destruct H as [|l ls Hl _]; [exact I|]. unfold lines_txt. cbn [map concat].
+    apply line_txt_head, Hl.
+  Qed.
+
+  Lemma line_txt_nonempty l : line_ok ftext l -> 0 < length (line_txt ftext l).
+  Proof.
+    destruct l as [k v| |[|] path]; cbn [line_txt]; intro H; rewrite ?app_length; cbn [length]; lia.
+  Qed.
+
+  Lemma doc_loop_sim ls : Forall (line_ok ftext) ls ->
+    forall fuel st S p Sa', DS.Inv st S -> length (lines_txt ls) < fuel ->
+      D.spec_fold false (absS S) (lines_stmts ls) = D.ROk Sa' ->
+      exists st' S' p', doc_loop fuel st (mkIn (lines_txt ls) p 0) = Ok st' (mkIn [] p' 0)
+                        /\ DS.Inv st' S' /\ absS S' = Sa'.
+  Proof.
+    induction 1 as [|l ls Hl Hls IH]; intros fuel st S p Sa' HI Hf Hfold.
+    - destruct fuel as [|f]; [cbn in Hf; lia|]. cbn [lines_stmts flat_map D.spec_fold] in Hfold. injection Hfold as <-.
+      exists st, S, p. split; [reflexivity|auto].
+    - destruct fuel as [|f]; [lia|].
+      unfold lines_stmts in Hfold. cbn [flat_map] in Hfold. rewrite spec_fold_app in Hfold.
+      destruct (D.spec_fold false (absS S) (line_stmt l)) as [Sa1| |] eqn:E1; cbn [D.rbind] in Hfold; try discriminate.
+      assert (Et : lines_txt (l :: ls) = line_txt ftext l ++ lines_txt ls) by reflexivity.
+      rewrite Et in Hf |- *.
+      destruct (doc_line_sim ftext l (lines_txt ls) st S p Hl (lines_txt_head ls Hls) HI Sa1 E1) as (st1 & S1 & p1 & Ed & HI1 & Ha1).
+      destruct (IH f st1 S1 p1 Sa' HI1) as (st' & S' & p' & El & HI' & Ha').
+      { rewrite app_length in Hf. pose proof (line_txt_nonempty l Hl). unfold bytes in *. lia. }
+      { rewrite Ha1. exact Hfold. }
+      exists st', S', p'. split; [|auto]. cbn [doc_loop]. rewrite Ed. cbn [rest].
+      rewrite eqb_lt; [exact El|]. rewrite app_length. pose proof (line_txt_nonempty l Hl). unfold bytes in *. lia.
+  Qed.
+
+  Theorem parse_lines ls Tabs cp :
+    Forall (line_ok ftext) ls -> D.spec_fold false D.sstate0 (lines_stmts ls) = D.ROk (Tabs, cp) ->
+    exists d, parse_document (lines_txt ls) = POk d /\ DB.mok_tbl (doc_root d) = true
+              /\ map_tree abs_value (DB.abs_tbl (doc_root d)) = Tabs.
+  Proof.
+    intros Hls Hfold.
+    set (st0 := on_ws state_new (0, 0)%N).
+    assert (HI0 : DS.Inv st0 D.sstate0) by (apply DM.Inv_on_ws, DS.Inv_init).
+    destruct (doc_loop_sim ls Hls (S (length (lines_txt ls))) st0 D.sstate0 0%N (Tabs, cp) HI0 (Nat.lt_succ_diag_r _) Hfold)
+      as (st' & [T' cp'] & p' & El & HI' & Ha').
+    destruct (DS.finalize_sim st' T' cp' HI') as (root' & Ef & Habs & Hmok).
+    exists (mkDoc root' (match st_trailing st' with Some sp0 => raw_with_span sp0 | None => REmpty end)).
+    split; [|split; [exact Hmok|]].
+    2:{ cbn [doc_root]. rewrite Habs. unfold absS, map_state in Ha'. cbn [fst snd] in Ha'. congruence. }
+    assert (Hdoc : document (mkIn (lines_txt ls) 0%N 0) = Ok st' (mkIn [] p' 0)).
+    { unfold document.
+      assert (Hbom : opt (lit bom) (mkIn (lines_txt ls) 0%N 0) = Ok None (mkIn (lines_txt ls) 0%N 0)).
+      { eapply opt_bt. apply lit_no. pose proof (lines_txt_head ls Hls) as Hh.
+        destruct (lines_txt ls) as [|b tl]; [reflexivity|]. destruct Hh as [_ Hb]. unfold bom. cbn [strip_prefix].
+        rewrite byte_eqb_sym, Hb. reflexivity. }
+      rewrite (bind_ok _ _ _ _ _ Hbom).
+      rewrite (bind_ok _ _ _ st0 (mkIn (lines_txt ls) 0%N 0)); [|apply parse_ws_none, lines_txt_head, Hls].
+      unfold bind at 1. cbn [rest]. rewrite El.
+      rewrite (bind_ok _ _ _ _ _ (eof_nil p' 0)). reflexivity. }
+    unfold parse_document, parse_all, new_input. rewrite (bind_ok _ _ _ _ _ Hdoc).
+    rewrite (bind_ok _ _ _ _ _ (eof_nil p' 0)). cbn [ret]. rewrite Ef. reflexivity.
+  Qed.
+End Document.
